@@ -53,6 +53,7 @@ type replayDoc struct {
 	Stack    string            `json:"stack,omitempty"`
 	TimeoutS int               `json:"timeout_s"`
 	Replace  map[string]string `json:"replace,omitempty"` // Config.Replace entries, applied natively by source rewriting
+	Exclude  []string          `json:"exclude,omitempty"` // auxiliary harness files that do not type-check against the tree
 }
 
 // runReplay compiles the harness natively (overlay with the native prelude and
@@ -69,6 +70,9 @@ func runReplay(doc *replayDoc, docPath string) (string, error) {
 	}
 	for k, v := range preludeFiles(doc.Pkg, pkgName, true, doc.NeedBig) {
 		ov[k] = v
+	}
+	for _, ex := range doc.Exclude {
+		delete(ov, filepath.Join(repoDir, doc.Pkg, ex))
 	}
 	test := fmt.Sprintf(`package %s
 
@@ -222,7 +226,7 @@ func (rc *runCtx) mkDoc(g *group, pkgName string, h HSpec, params map[string]int
 		h.Cfg(&cfg, rc.thorough)
 	}
 	return &replayDoc{Property: rc.prop.ID, Harness: h.Func, Pkg: g.pkg, Dir: g.dir, PkgName: pkgName, NeedBig: g.needBig, Params: params,
-		Known: rc.knownAct, Values: m, TimeoutS: int(to.Seconds()), Replace: cfg.Replace}
+		Known: rc.knownAct, Values: m, TimeoutS: int(to.Seconds()), Replace: cfg.Replace, Exclude: g.dropped}
 }
 
 // nativeReplay runs a model natively with a throw-away replay file.
